@@ -340,6 +340,18 @@ def r6_cleanup_order(chk: Check):
     chk.require(ok, chk.fkey(f, "releases locks"), "cleanup must release every recorded lock, each release protected against exceptions", loc)
 
 
+
+def r7_forked_child_exits(chk: Check):
+    """A process forked by the task body that leaves through sys.exit / an exception unwinds through TaskRunner.run's own handlers and writes the
+    markers of the job that is still running (finding kept in known_findings.json)"""
+    tree = chk.tree
+    f = tree.func("run", "TaskRunner.run")
+    hs = [h for h in ast.walk(f.node) if isinstance(h, ast.ExceptHandler) and h.type is not None and src(h.type) in ("SystemExit", "Exception")]
+    guarded = all(any(isinstance(c, ast.Call) and dotted(c.func) == "os.getpid" for c in ast.walk(h)) for h in hs) and bool(hs)
+    chk.require(guarded, chk.fkey(f, "handlers run in forked children"), "the `except SystemExit` / `except Exception` clauses of TaskRunner.run are not restricted to the process that took the locks: "
+                "a child forked by the task body that calls sys.exit(0) touches the success marker while the body is still running", chk.loc(f.module, f.node))
+
+
 RULES = [
     ("R1", "success marker: written only by TaskRunner.run's SystemExit handler under code == 0; sys.exit(0) only after the body returned; body guarded by the marker read under the lock (= C05.R4/R5)", r1_success_marker),
     ("R2", "failure marker: SIGTERM/SIGINT handlers installed before locking; handle_error writes the marker, then cleans up, then exits non-zero; exceptions and non-zero exits go through it; stale marker removed only on the way to the body", r2_failure_marker),
@@ -347,4 +359,5 @@ RULES = [
     ("R4", "the run lock is a descriptor-based inter-process lock that dies with the process", r4_lock_type),
     ("R5", "the pid file is written under the job lock after the spawn (= C05.R3)", r5_pid_under_lock),
     ("R6", "cleanup removes the pid file first, on every path, before any call that may raise; lock releases are protected", r6_cleanup_order),
+    ("R7", "forked children and the runner's exception handlers (finding kept in known_findings.json)", r7_forked_child_exits),
 ]
